@@ -1,5 +1,8 @@
 // C30: hpack.Encoder -> hpack.Decoder round trip vs model Hpack.v.
 // input : [L [op ...]]  op = [0 name value sens] WriteField | [1 v] SetMaxDynamicTableSize | [2] end of block
+//
+//	| [2 k] end of block, the receiver calls SetEmitEnabled(false) after k emitted fields
+//
 // output: per block [block fields status encSize encMax decSize decMax]
 package main
 
@@ -53,7 +56,15 @@ func impl(in hv.Val) hv.Val {
 	enc := hpack.NewEncoder(&buf)
 	enc.SetMaxDynamicTableSizeLimit(L)
 	var got []hpack.HeaderField
-	dec := hpack.NewDecoder(4096, func(f hpack.HeaderField) error { got = append(got, f); return nil })
+	budget := -1
+	var dec *hpack.Decoder
+	dec = hpack.NewDecoder(4096, func(f hpack.HeaderField) error {
+		got = append(got, f)
+		if budget >= 0 && len(got) >= budget { // as the HTTP/2 framer does once the header list is too large
+			dec.SetEmitEnabled(false)
+		}
+		return nil
+	})
 	dec.SetAllowedMaxDynamicTableSize(L)
 	out := hv.L{}
 	for _, opv := range hv.AsList(l[1]) {
@@ -69,6 +80,14 @@ func impl(in hv.Val) hv.Val {
 			blk := append([]byte(nil), buf.Bytes()...)
 			buf.Reset()
 			got = nil
+			budget = -1
+			dec.SetEmitEnabled(true)
+			if len(op) > 1 {
+				budget = int(hv.AsInt(op[1]))
+				if budget == 0 {
+					dec.SetEmitEnabled(false)
+				}
+			}
 			_, err := dec.Write(blk)
 			if err == nil {
 				err = dec.Close()
@@ -213,6 +232,7 @@ func gen(r *hv.Rng, i int, tier string) (string, hv.Val) {
 	ops := hv.L{}
 	nb := r.Range(1, 5)
 	setmax := false
+	emitoff := false
 	for b := 0; b < nb; b++ {
 		if r.Chance(1, 3) { // size change announced between blocks
 			ops = append(ops, hv.L{hv.I(1), hv.I(gm())})
@@ -229,7 +249,19 @@ func gen(r *hv.Rng, i int, tier string) (string, hv.Val) {
 				ops = append(ops, hv.L{hv.I(0), hv.B([]byte(r.Pick(names))), hv.B(genValue(r)), hv.Bool(r.Chance(1, 7))})
 			}
 		}
-		ops = append(ops, hv.L{hv.I(2)})
+		if r.Chance(1, 3) { // emit disabled after k fields of this block
+			k := []int{0, 1, 2, nf - 1, nf, nf + 1, r.Intn(nf + 1)}[r.Intn(7)]
+			if k < 0 {
+				k = 0
+			}
+			ops = append(ops, hv.L{hv.I(2), hv.I(k)})
+			emitoff = true
+		} else {
+			ops = append(ops, hv.L{hv.I(2)})
+		}
+	}
+	if emitoff {
+		class += "-emitoff"
 	}
 	if setmax {
 		class += "-setmax"
